@@ -41,6 +41,9 @@ type scenario struct {
 	legacyCache bool
 	// create: actor 0 creates the log first (base must be -1: empty stores).
 	create bool
+	// poolSize bounds the pool (0 = unbounded); submitter specs starting with "~"
+	// are low-priority submissions.
+	poolSize int
 }
 
 type actorSpec struct {
@@ -208,6 +211,8 @@ func (a *actor) run() {
 			x.w.mon.admitted(spec, e, src)
 			ps = append(ps, pend{spec, e, f, src})
 		}
+		// Before each round the driver yields: by default the submitters run first.
+		x.s.Yield("round")
 		err := in.log.sequence(in.ctx)
 		x.logf("%s: round %d on epoch %d: %v", a.name, r, in.epoch, err)
 		acks := 0
@@ -271,8 +276,10 @@ func (x *exec) submitter(id int, specs []string) {
 		if in == nil || in.log == nil || in.crashed.Load() {
 			return
 		}
+		low := strings.HasPrefix(spec, "~")
+		spec = strings.TrimPrefix(spec, "~")
 		e := mkEntry(spec)
-		f, src := in.log.addLeafToPool(in.ctx, e, false)
+		f, src := in.log.addLeafToPool(in.ctx, e, low)
 		x.w.mon.admitted(spec, e, src)
 		x.s.Observe("src=" + src)
 		x.collect(in, spec, e, f, src)
@@ -409,6 +416,7 @@ func runExec(t *testing.T, sc *scenario, prefix []int) *verifmc.ExecResult {
 		base := getBaseFor(sc)
 		w := newWorld(s, base, sc.opt)
 		w.mon.checkC04 = sc.checkC04
+		w.poolSize = sc.poolSize
 		x := &exec{sc: sc, w: w, s: s, acked: map[string]bool{}}
 		specs := append([]actorSpec{{name: "L", rounds: sc.rounds, create: sc.create}}, sc.actors...)
 		for i, sp := range specs {
@@ -540,6 +548,16 @@ func runProperty(t *testing.T, prop string, scenarios []*scenario, props ...stri
 		out.WallS = time.Since(start).Seconds()
 		verifmc.WriteShardResult(out)
 		return
+	}
+	// VERIF_SCENARIO restricts the run to scenarios whose name contains it (debugging aid).
+	if f := os.Getenv("VERIF_SCENARIO"); f != "" {
+		var keep []*scenario
+		for _, sc := range scenarios {
+			if strings.Contains(sc.name, f) {
+				keep = append(keep, sc)
+			}
+		}
+		scenarios = keep
 	}
 	// Pre-build base trees outside executions.
 	for _, sc := range scenarios {
